@@ -155,6 +155,29 @@ def spec_validation():
         bad.append("zlib accepts garbage")
     except zlib.error:
         pass
+    # zlib.decompress ignores whatever follows a complete stream (assumed so in specs/pystruct.py); a decompressor object reports it
+    for b in (b"", b"x" * 101):
+        c = zlib.compress(b, 4)
+        for junk in (b"J", b"JUNK" * 5, c):
+            n += 1
+            try:
+                if zlib.decompress(c + junk) != b:
+                    bad.append("zlib.decompress(stream + junk) != data of the stream")
+            except zlib.error:
+                bad.append("zlib.decompress refuses trailing bytes (the model says it ignores them)")
+            d = zlib.decompressobj()
+            if d.decompress(c + junk) != b or not d.eof or d.unused_data != junk:
+                bad.append("decompressobj: eof / unused_data after stream + junk")
+        d = zlib.decompressobj()
+        d.decompress(c[:-2])
+        n += 1
+        if d.eof or d.unused_data:
+            bad.append("decompressobj: eof on a truncated stream")
+        try:
+            zlib.decompress(c[:-2])
+            bad.append("zlib.decompress accepts a truncated stream")
+        except zlib.error:
+            pass
     return n, bad
 
 
@@ -245,6 +268,31 @@ def main(mode):
                         runs += 1
                         fail = fail or roundtrip(4, 0, 9, 2, bytes((i * 7) % 3 + 65 for i in range(plen)), a, None, comp)
         config.MAX_MESSAGE_SIZE = 1024 * 1024 * 1024
+    # compressed messages whose data region holds more than the one zlib stream (length field adjusted so that the header is consistent): the extra bytes
+    # belong to nothing - such a byte string must not be accepted
+    if not fail:
+        for plen in (101, 700):
+            for junk in (b"J", b"JUNKJUNK", zlib.compress(b"second stream", 4)):
+                for a in ({}, {"ABCD": b"12"}):
+                    config.COMPRESSION = True
+                    config.MAX_MESSAGE_SIZE = 1024 * 1024 * 1024
+                    current_context.correlation_id = None
+                    m = P.SendingMessage(4, 0, 5, 2, bytes((i * 7) % 3 + 65 for i in range(plen)), annotations=a)
+                    b = bytearray(m.data)
+                    if not (b[9] & P.FLAGS_COMPRESSED):
+                        continue
+                    dsz = int.from_bytes(b[12:16], "big")
+                    b[12:16] = (dsz + len(junk)).to_bytes(4, "big")
+                    b += junk
+                    runs += 1
+                    try:
+                        r = P.recv_stub(Conn(bytes(b)))
+                        fail = fail or {"fn": "decode", "violated": "accepted a compressed message whose data region continues after the end of the zlib stream "
+                                        "(%d surplus bytes tile nothing; they are silently dropped)" % len(junk), "bytes": list(b[:60]), "len": len(b),
+                                        "decoded_data_len": len(r.data)}
+                    except (errors.ProtocolError, zlib.error):
+                        pass
+        config.COMPRESSION = False
     # decoder on mutated messages
     if not fail:
         config.COMPRESSION = False
